@@ -16,6 +16,7 @@ mod rng;
 mod sendsync;
 mod seq;
 mod solo;
+mod tight;
 mod wake;
 
 use std::collections::HashMap;
@@ -200,6 +201,12 @@ fn main() {
             let mut shard = report::Shard::new("mq-solo");
             shard.rule = "case = one try operation executed by the only running thread while every other thread is frozen at a hook site; distinct = hash(operation, result, multiset of sites the other threads are frozen at, flavour); non-trivial = at least one other thread is frozen in the middle of an operation (not at an entry site)".to_string();
             solo::run_many(args.u64("seed", 1), args.u64("runs", 100), args.u64("budget-ms", 0), args.flag("small"), &mut shard);
+            write_out(&args, &shard);
+        }
+        "tight" => {
+            let mut shard = report::Shard::new("mq-tight");
+            shard.rule = "run = 0.3-1 s of free-running traffic: 2-4 consumers on one shared stream of a queue with N in {1,2,4}, 1-2 producers, optional view stream, no injected delays and no per-call bookkeeping; distinct = hash(configuration, lost position races / 64); non-trivial = consumers really lost position races to each other (R_CAS_LOST / R_PIN_LOST sites hit)".to_string();
+            tight::run_many(args.u64("seed", 1), args.u64("runs", 100), args.u64("budget-ms", 0), args.flag("small"), &mut shard);
             write_out(&args, &shard);
         }
         "sendsync" => {
